@@ -32,7 +32,7 @@ def contract_facts(qualname, eng=None):
     pre = [eval_bool(eng, cl, st.env, st) for _, cl in c.labelled(c.requires, 'pre')]
     na = z3.Int('alloc_post')
     st.assume(na >= st.heap.alloc)
-    st.heap.alloc = na
+    st.heap.new_epoch(na)
     env = dict(st.env)
     env['result'] = fresh_of_kind(eng, st, c.returns, 'res') if c.returns is not None else None
     for g, gk in (c.ghost.get('return_kinds') or {}).items():
